@@ -16,8 +16,8 @@ VARIANTS = ['plain']
 CHUNK = 32
 ENGINE = 'history-explorer'
 TECHNIQUE = 'explicit-state BFS over statement histories (merged on the model state with two witnesses, plus unmerged enumeration), every transition executed on the real assembler'
-LEVEL_TEXT = ('All histories of address statements up to depth 3 (quick) / 4 (thorough) over a 24-op alphabet on a byte-granular (8051) and a '
-              'word-granular (PIC16C84) target, and a breadth-first search merged on the reference model state to depth 5 / 6 with two witness '
+LEVEL_TEXT = ('All histories of address statements up to depth 3 (quick) / 4 (thorough) over a 26-op alphabet on a byte-granular (8051) and a '
+              'word-granular (PIC16C84) target, and a breadth-first search merged on the reference model state to depth 4 / 5 (themed sub-alphabets to 7) with two witness '
               'histories per state, are executed on the rebuilt assembler; every label value, every emitted byte\'s (segment, address), the final '
               'CPU and the documented errors are compared with the model, and the statement\'s invariants are evaluated on every model state.')
 LEVEL_NOTE = ('Trusted: Python reference model written from the manual; two implementation-defined choices are assumptions: ORG under PHASE sets the '
@@ -25,7 +25,7 @@ LEVEL_NOTE = ('Trusted: Python reference model written from the manual; two impl
               'checked for crashes.')
 RULE = ('histories over the op alphabet; unmerged: every sequence up to the depth; merged: BFS on canonical model state, two witnesses per state, '
         'every op applied to every witness. Non-trivial = history inside the address domain whose labels/markers were compared.')
-BOUNDS = {'quick': 'unmerged<=3, merged depth<=4, 2 targets', 'thorough': 'unmerged<=4, merged depth<=6 (themed alphabets to 7), 2 targets'}
+BOUNDS = {'quick': 'unmerged<=3, merged depth<=4, 2 targets', 'thorough': 'unmerged<=4 (8051) / 3 (PIC), merged depth<=5 (themed alphabets to 7), 2 targets'}
 ASSUMPTIONS = ['ORG under a non-zero PHASE sets the execution address (upstream Bld 203 behaviour)',
                'a CPU statement makes CODE the active segment and changes no counter',
                'address domain 0..$FF in every segment']
@@ -39,7 +39,7 @@ TPIC = dict(name='16c84', cpu='16c84', alt='16c64', segs={'code': (1, 0, 2), 'da
 TARGETS = {'8051': T8051, '16c84': TPIC}
 
 OPS = ['ORG10', 'ORG41', 'RORG3', 'RORGm1', 'ALIGN2', 'ALIGN4', 'ALIGN3', 'DS1', 'DS3', 'DB1', 'DB2', 'SEGc', 'SEGd', 'SEGx',
-       'PH60', 'PHrel', 'DEPH', 'SAVE', 'REST', 'CPUalt', 'CPUmain', 'STRUCT12', 'UNION12', 'NEST']
+       'PH60', 'PHrel', 'PHld', 'DEPH', 'SAVE', 'REST', 'CPUalt', 'CPUmain', 'STRUCT12', 'UNION12', 'NEST', 'ANON']
 SEGOF = {'c': 'code', 'd': 'data', 'x': None}
 LIM = 0xff
 
@@ -105,6 +105,10 @@ def step(s, op, k, markers, syms):
     elif op == 'PHrel':
         s.phst.setdefault(seg, []).append(s.ph.get(seg, 0))
         s.ph[seg] = (s.epc() + 8) - s.pc[seg]
+    elif op == 'PHld':
+        # PHASE to exactly the current load address: the new offset is 0, but it is still a nesting level
+        s.phst.setdefault(seg, []).append(s.ph.get(seg, 0))
+        s.ph[seg] = 0
     elif op == 'DEPH':
         st = s.phst.get(seg)
         s.ph[seg] = st.pop() if st else 0
@@ -137,12 +141,20 @@ def step(s, op, k, markers, syms):
         syms['S%d_U_B' % k] = 1
         syms['S%d_F2' % k] = 3
         syms['S%d_LEN' % k] = 4
+    elif op == 'ANON':
+        # struct { F1: 1; <nameless> union { A: 2; <nameless> struct { B: 1; C: 1 } }; F2: 1 }: members join the named parent
+        syms['S%d_F1' % k] = 0
+        syms['S%d_A' % k] = 1
+        syms['S%d_B' % k] = 1
+        syms['S%d_C' % k] = 2
+        syms['S%d_F2' % k] = 3
+        syms['S%d_LEN' % k] = 4
     else:
         raise ValueError(op)
     s.chk()
 
 
-def src_of(T, op, k, gran_seg=None):
+def src_of(T, op, k, st=None):
     r = T['res']
     f = T['fld']
 
@@ -157,6 +169,11 @@ def src_of(T, op, k, gran_seg=None):
         return ['S%d\tunion' % k, fld('F1', 1), fld('F2', 2), 'S%d\tendunion' % k]
     if op == 'NEST':
         return ['S%d\tstruct' % k, fld('F1', 1), 'U\tunion', fld('A', 2), fld('B', 1), 'U\tendunion', fld('F2', 1), 'S%d\tendstruct' % k]
+    if op == 'ANON':
+        return ['S%d\tstruct' % k, fld('F1', 1), '\tunion', fld('A', 2), '\tstruct', fld('B', 1), fld('C', 1), '\tendstruct', '\tendunion',
+                fld('F2', 1), 'S%d\tendstruct' % k]
+    if op == 'PHld':
+        return ['\tphase %d' % st.pc[st.seg]]
     m = {'ORG10': 'org 16', 'ORG41': 'org 65', 'RORG3': 'rorg 3', 'RORGm1': 'rorg -1', 'ALIGN2': 'align 2', 'ALIGN4': 'align 4',
          'ALIGN3': 'align 3', 'DS1': r + ' 1', 'DS3': r + ' 3', 'SEGc': 'segment code', 'SEGd': 'segment data',
          'SEGx': 'segment %s' % T['third'], 'PH60': 'phase 96', 'PHrel': 'phase %s+8' % T['pcsym'], 'DEPH': 'dephase', 'SAVE': 'save', 'REST': 'restore',
@@ -182,9 +199,11 @@ def model(tname, seq):
 def render(tname, seq, syms):
     T = TARGETS[tname]
     out = ['\tcpu ' + T['cpu']]
+    st = St(T)
     for k, op in enumerate(seq):
         out.append('L%d:' % k)
-        out += src_of(T, op, k)
+        out += src_of(T, op, k, st)
+        step(st, op, k, [], {})
     out.append('L%d:' % len(seq))
     out.append('CFIN\tset MOMCPU')
     out.append(T['emit']([0xEE]))      # final probe: which segment is active, and where
@@ -211,7 +230,7 @@ def invariants(tname, seq):
         if op.startswith('ALIGN'):
             n = int(op[5:])
             assert s.epc() % n == 0 and 0 <= s.epc() - e0 < n
-        if op in ('STRUCT12', 'UNION12', 'NEST'):
+        if op in ('STRUCT12', 'UNION12', 'NEST', 'ANON'):
             assert (dict(s.pc), dict(s.ph), s.seg) == (before[0], before[1], before[2])
 
 
@@ -252,24 +271,24 @@ def merged(tname, depth, ops):
 
 
 THEMES = {
-    'phase': ['PH60', 'PHrel', 'DEPH', 'ORG10', 'DB1', 'SEGd', 'SEGc', 'ALIGN4'],
+    'phase': ['PH60', 'PHrel', 'PHld', 'DEPH', 'ORG10', 'DB1', 'SEGd', 'ALIGN4'],
     'save': ['SAVE', 'REST', 'CPUalt', 'CPUmain', 'SEGd', 'SEGx', 'DB1'],
-    'struct': ['STRUCT12', 'UNION12', 'NEST', 'PH60', 'SEGd', 'DB1', 'ORG41'],
+    'struct': ['STRUCT12', 'UNION12', 'NEST', 'ANON', 'PH60', 'SEGd', 'DB1', 'ORG41'],
 }
 
 
 def subspaces(tier):
     subs = []
     n = 3 if tier == 'quick' else 4
-    md = 4 if tier == 'quick' else 6
+    md = 4 if tier == 'quick' else 5
     for tn in ('8051', '16c84'):
-        def um(tn=tn, n=n):
+        def um(tn=tn, n=(n if tn == '8051' or tier == 'quick' else n - 1)):
             for k in range(1, n + 1):
                 for s in itertools.product(ops_of(tn, OPS), repeat=k):
                     yield {'k': 'u', 't': tn, 'hist': list(s[:-1]), 'op': s[-1]}
         subs.append(('unmerged-%s' % tn, um()))
     for tn in ('8051', '16c84'):
-        subs.append(('merged-%s-depth%d' % (tn, md if tn == '8051' else md - 1), merged(tn, md if tn == '8051' else md - 1, OPS)))
+        subs.append(('merged-%s-depth%d' % (tn, md), merged(tn, md, OPS)))
     if tier != 'quick':
         for th, ops in THEMES.items():
             subs.append(('merged-8051-theme-%s-depth7' % th, merged('8051', 7, ops)))
